@@ -270,6 +270,7 @@ impl BasicLexer {
                         exp = false;
                         s.pop();
                         self.chars.push_front(ch);
+                        break;
                     }
                 }
                 if is_basic_digit(pk) {
